@@ -95,7 +95,7 @@ def extract_boundary_of_surface(mesh : SurfaceMesh) -> PolyLine :
                 map_v2v[v2] = ind_vertex
                 ind_vertex += 1
                 component[v2] = ind_component
-                bound.vertices.append(mesh.vertices[v2])
+                bound.vertices.append(mesh.vertices[v2].copy())
             ind_component += 1
 
     # re order edge indexes
